@@ -195,7 +195,8 @@ class RuntimeContract:
         for cl in self.ensures:
             try:
                 ok = cl.post(env, olds[id(cl)])
-            except Exception as ex:
+            except (KeyError, IndexError, ZeroDivisionError, AttributeError, StopIteration) as ex:
+                # the post-state lacks something the clause talks about: a genuine violation
                 raise ContractViolation(f'ensures:{cl.label}', f'clause raised {type(ex).__name__}: {ex}')
             if not ok:
                 raise ContractViolation(f'ensures:{cl.label}', f'clause is false: {cl.text}')
